@@ -194,6 +194,7 @@ def run_property(modname, tier, seed, nproc=None):
             L = agg["levels"][r["level"]]
             L["done"] += 1
             L["evals"] += r["evals"]
+            L["cpu_s"] = round(L.get("cpu_s", 0) + r["t"], 2)
 
     if harness_errors:
         print("HARNESS-ERROR in %d shard(s); first:\n%s" % (len(harness_errors), harness_errors[0]))
